@@ -29,7 +29,7 @@ func (c16) ID() string { return "C16" }
 var c16Types = []string{gen.TOpen2, gen.TOpen2, gen.TOpen3, gen.TEditions, gen.THybrid, gen.TOpaque, gen.TOpaque, gen.TLazyNode, gen.TMixedOpq, gen.TManyOpaque,
 	gen.TExt2, gen.TExt2, "opaque.goproto.proto.testeditions.TestAllExtensions", "pbsim.fx.AfterOneof", "opaque.goproto.proto.test3.TestAllTypes"} // message- and group-typed extension values: sized through the extension's own coder
 
-var c16Writes = []string{"set-scalar", "set-scalar", "clear-field", "set-msg", "mutable-touch", "gen-set-msg", "gen-clear", "merge-into", "append-list", "map-set", "elem-mutate", "elem-mutate", "unknown-append", "truncate-list"}
+var c16Writes = []string{"set-scalar", "set-scalar", "clear-field", "set-msg", "mutable-touch", "gen-set-msg", "gen-clear", "merge-into", "append-list", "map-set", "elem-mutate", "elem-mutate", "unknown-append", "truncate-list", "decode-merge", "decode-merge"}
 var c16Reads = []string{"size", "size", "marshal", "marshal", "marshal-det", "marshal-append", "size-marshal-cached", "get-chain", "reflect-range", "clone", "equal", "json"}
 
 func (c16) Gen(r *sim.Rng, tier string) *scn.Scn {
@@ -120,6 +120,31 @@ func c16Write(root proto.Message, op *scn.Op, seed uint64, objs []scn.Object) ui
 	o := gen.DefaultOpts()
 	o.MaxDepth = 1
 	o.Extensions = false
+	if op.Op == "decode-merge" {
+		// an overlay arrives from the wire and is merged into a message that has been sized before:
+		// into the root, or into the submessage at the path (its part of the other object's content)
+		ob := objs[op.Obj%len(objs)]
+		uo := proto.UnmarshalOptions{Merge: true, AllowPartial: true}
+		if len(op.Path) == 0 || op.N%3 == 0 {
+			uo.Unmarshal(append([]byte(nil), ob.Wire...), root)
+			return 7
+		}
+		src, err := decodeEager(ob.Type, ob.Wire)
+		if err != nil {
+			return 0
+		}
+		sub := walkRead(src.ProtoReflect(), op.Path)
+		target := walkMutable(root.ProtoReflect(), op.Path)
+		if sub.Descriptor() != target.Descriptor() || !sub.IsValid() {
+			return 0
+		}
+		b, err := proto.MarshalOptions{AllowPartial: true}.Marshal(sub.Interface())
+		if err != nil {
+			return 0
+		}
+		uo.Unmarshal(b, target.Interface())
+		return 8
+	}
 	switch op.Op {
 	case "append-list":
 		m := walkMutable(root.ProtoReflect(), op.Path)
